@@ -759,3 +759,197 @@ Proof.
   rewrite wrap64_small in Hs by (unfold two63 in *; lia).
   rewrite Ht, Hs. split; [lia|split; reflexivity].
 Qed.
+
+(* ------------------------------------------------------------------ the level field of a node id *)
+Definition level_of (x : N) : N := N.shiftr x depth_shift.
+
+Lemma m64_shiftr64 x : N.shiftr (m64 x) 64 = 0%N.
+Proof.
+  rewrite m64_mod. apply N.shiftr_eq_0_iff.
+  destruct (N.eq_dec (x mod two64N) 0) as [E|E]; [left; exact E|right].
+  assert (Hpos : (0 < x mod two64N)%N) by (apply N.neq_0_lt_0; exact E).
+  split; [exact Hpos|]. apply N.log2_lt_pow2; [exact Hpos|]. change (2 ^ 64)%N with two64N. apply N.mod_lt. discriminate.
+Qed.
+
+Lemma node_level h p f d : level_of (node_id h p f d) = N.min d depth_clamp.
+Proof.
+  unfold level_of, node_id. rewrite N.shiftr_lor, N.shiftr_shiftr.
+  change (hash_shift + depth_shift)%N with 64%N. rewrite m64_shiftr64, N.lor_0_l.
+  rewrite N.shiftr_shiftl_l by reflexivity. rewrite N.sub_diag. apply N.shiftl_0_r.
+Qed.
+
+(* ------------------------------------------------------------------ the root sum needs no hypothesis on the hash
+   A frame of level 1 has parent 0 and every other frame a non-zero parent; the level is part of the node id, so a
+   collision never moves weight between the root's children and the deeper nodes. *)
+Definition is_root (n : node) : N := if N.eqb (n_parent n) 0 then 0%N else 1%N.
+
+Lemma child_tot_root k t : child_tot k t 0%N = gsum is_root snd k t 0%N.
+Proof.
+  unfold child_tot, gsum. f_equal. apply map_ext. intros n. unfold is_root.
+  destruct (N.eqb (n_parent n) 0); reflexivity.
+Qed.
+
+Definition RootInv (t : tree) : Prop := forall n, In n t -> (n_parent n = 0%N <-> level_of (n_id n) = 1%N).
+
+Lemma bump_in t p f i leaf vs zero m : In m (bump t p f i leaf vs zero) ->
+  (exists n, In n t /\ n_parent m = n_parent n /\ n_id m = n_id n) \/ (n_parent m = p /\ n_id m = i).
+Proof.
+  induction t as [|n r IH]; cbn [bump]; intros Hm.
+  - destruct Hm as [<-|[]]. right. split; reflexivity.
+  - destruct (N.eqb (n_id n) i).
+    + destruct Hm as [Hm|Hm].
+      * subst m. left. exists n. split; [left; reflexivity|split; reflexivity].
+      * left. exists m. split; [right; exact Hm|split; reflexivity].
+    + destruct Hm as [Hm|Hm].
+      * subst m. left. exists n. split; [left; reflexivity|split; reflexivity].
+      * destruct (IH Hm) as [[n' [Hn' Heq]]|Hnew]; [left; exists n'; split; [right; exact Hn'|exact Heq]|right; exact Hnew].
+Qed.
+
+Lemma bump_root k nt t p f i leaf vs : (k < nt)%nat -> WF nt t ->
+  (forall n, In n t -> n_id n = i -> (n_parent n = 0%N <-> p = 0%N)) ->
+  eqm (child_tot k (bump t p f i leaf vs (zero_vals nt)) 0%N) (child_tot k t 0%N + if N.eqb p 0 then nth k vs 0 else 0).
+Proof.
+  intros Hk Hwf Hpar. rewrite !child_tot_root.
+  rewrite (bump_gsum is_root snd (fun _ _ => eq_refl) comp_snd eq_refl k nt p f i leaf vs
+             (if N.eqb p 0 then 0%N else 1%N) 0%N Hk eq_refl t Hwf).
+  - destruct (N.eqb p 0); reflexivity.
+  - intros n Hn Hid. unfold is_root. pose proof (Hpar n Hn Hid) as [H1 H2].
+    destruct (N.eqb (n_parent n) 0) eqn:E1, (N.eqb p 0) eqn:E2; try reflexivity.
+    + apply N.eqb_eq in E1. apply N.eqb_neq in E2. tauto.
+    + apply N.eqb_neq in E1. apply N.eqb_eq in E2. tauto.
+Qed.
+
+Lemma walk_root h k nt : (k < nt)%nat -> forall rest t p d vs,
+  WF nt t -> RootInv t -> (1 <= d)%N -> (p = 0%N <-> d = 1%N) ->
+  let t' := walk h t p d rest vs (zero_vals nt) in
+  WF nt t' /\ RootInv t' /\
+  eqm (child_tot k t' 0%N) (child_tot k t 0%N + if is_nil rest then 0 else if N.eqb p 0 then nth k vs 0 else 0).
+Proof.
+  intros Hk. induction rest as [|f rest IH]; intros t p d vs Hwf Hri Hd Hpd; cbn [walk is_nil].
+  - split; [exact Hwf|]. split; [exact Hri|]. apply eqm_of_eq. lia.
+  - set (i := node_id h p f d).
+    assert (Hlvl : level_of i = 1%N <-> p = 0%N).
+    { unfold i. rewrite node_level. unfold depth_clamp. split; intros H; [apply Hpd; lia|apply Hpd in H; lia]. }
+    set (t1 := bump t p f i (is_nil rest) vs (zero_vals nt)).
+    assert (Hwf1 : WF nt t1) by (apply bump_wf; exact Hwf).
+    assert (Hri1 : RootInv t1).
+    { intros m Hm. destruct (bump_in _ _ _ _ _ _ _ _ Hm) as [[n [Hn [Hp Hi]]]|[Hp Hi]].
+      - rewrite Hp, Hi. apply Hri. exact Hn.
+      - rewrite Hp, Hi. split; intros H; apply Hlvl; exact H. }
+    assert (Hch : eqm (child_tot k t1 0%N) (child_tot k t 0%N + if N.eqb p 0 then nth k vs 0 else 0)).
+    { apply bump_root; [exact Hk|exact Hwf|]. intros n Hn Hid. rewrite (Hri n Hn), Hid. exact Hlvl. }
+    assert (Hi : i <> 0%N) by (apply node_id_nonzero; exact Hd).
+    destruct (IH t1 i (d + 1)%N vs Hwf1 Hri1 ltac:(lia) ltac:(split; intros H; [contradiction|lia])) as (H1 & H2 & H3).
+    split; [exact H1|]. split; [exact H2|]. rewrite H3, Hch.
+    apply N.eqb_neq in Hi. rewrite Hi. apply eqm_of_eq. destruct (is_nil rest); lia.
+Qed.
+
+Lemma fold_root h k nt : (k < nt)%nat -> forall ss t, WF nt t -> RootInv t ->
+  let t' := fold_left (add_sample h (zero_vals nt)) ss t in
+  WF nt t' /\ RootInv t' /\ eqm (child_tot k t' 0%N) (child_tot k t 0%N + weight k ss).
+Proof.
+  intros Hk. induction ss as [|s ss IH]; intros t Hwf Hri; cbn [fold_left].
+  - split; [exact Hwf|]. split; [exact Hri|]. apply eqm_of_eq. unfold weight. cbn. lia.
+  - destruct (walk_root h k nt Hk (rev (s_stack s)) t 0%N 1%N (s_values s) Hwf Hri ltac:(lia) ltac:(tauto)) as (H1 & H2 & H3).
+    fold (add_sample h (zero_vals nt) t s) in H1, H2, H3.
+    destruct (IH _ H1 H2) as (G1 & G2 & G3).
+    split; [exact G1|]. split; [exact G2|]. rewrite G3, H3, weight_cons, is_nil_rev. cbn [N.eqb].
+    apply eqm_of_eq. lia.
+Qed.
+
+(* for EVERY hash: the rows under the root add up to the sum of all sample values of the profile *)
+Theorem root_sum_any_hash h na nt ss k : (k < nt)%nat ->
+  wrap64 (child_tot k (stored_tree h na nt ss) 0%N) = wrap64 (full_weight k ss).
+Proof.
+  intros Hk. apply eqm_wrap64. unfold stored_tree, post_process.
+  destruct (fold_root h k nt Hk (normalize na ss) [] ltac:(intros n []) ltac:(intros n [])) as (_ & _ & H).
+  rewrite H, weight_normalize. apply eqm_of_eq. reflexivity.
+Qed.
+
+(* ------------------------------------------------------------------ no truncation: every frame of every stack is stored
+   (any depth, in particular beyond the 511 levels the id can carry: the level field stops counting, the walk does not) *)
+Lemma deep_levels_clamped h p f d : (depth_clamp <= d)%N -> node_id h p f d = node_id h p f depth_clamp.
+Proof. intros H. unfold node_id. rewrite N.min_r by exact H. rewrite N.min_id. reflexivity. Qed.
+
+Lemma bump_keeps t p f i leaf vs zero y : In y (map n_id t) \/ y = i -> In y (map n_id (bump t p f i leaf vs zero)).
+Proof.
+  induction t as [|n r IH]; cbn [bump map]; intros H.
+  - destruct H as [H|H]; [destruct H|]. subst y. left. reflexivity.
+  - destruct (N.eqb (n_id n) i) eqn:E; cbn [map n_id In].
+    + destruct H as [H|H]; [exact H|]. subst y. left. apply N.eqb_eq. exact E.
+    + destruct H as [[H|H]|H]; [left; exact H|right; apply IH; left; exact H|right; apply IH; right; exact H].
+Qed.
+
+Lemma walk_keeps h : forall rest t p d vs zero y,
+  In y (map n_id t) \/ In y (walk_ids h p d rest) -> In y (map n_id (walk h t p d rest vs zero)).
+Proof.
+  induction rest as [|f rest IH]; intros t p d vs zero y H; cbn [walk].
+  - destruct H as [H|[]]. exact H.
+  - rewrite walk_ids_cons in H. apply IH. destruct H as [H|[H|H]].
+    + left. apply bump_keeps. left. exact H.
+    + left. apply bump_keeps. right. symmetry. exact H.
+    + right. exact H.
+Qed.
+
+Theorem every_frame_stored h nt ss s y : In s ss -> In y (sample_ids h s) -> In y (map n_id (post_process h nt ss)).
+Proof.
+  unfold post_process.
+  assert (G : forall ss t, In y (map n_id t) \/ (exists s, In s ss /\ In y (sample_ids h s)) ->
+              In y (map n_id (fold_left (add_sample h (zero_vals nt)) ss t))).
+  { clear ss s. induction ss as [|s ss IH]; intros t H; cbn [fold_left].
+    - destruct H as [H|[s [Hs _]]]; [exact H|destruct Hs].
+    - apply IH. destruct H as [H|[s' [[Hs|Hs] Hy]]]; [| subst s' |].
+      + left. apply walk_keeps. left. exact H.
+      + left. apply walk_keeps. right. exact Hy.
+      + right. exists s'. split; assumption. }
+  intros Hs Hy. apply G. right. exists s. split; assumption.
+Qed.
+
+(* ------------------------------------------------------------------ a collision under the REAL hash
+   Found by harness/cmd/profcollide (birthday search over the 55 hash bits of a node id, 2 s):
+     getNodeId(id of root frame main.p71,  CH64("main.f42920d41cc6b47"), 2)
+   = getNodeId(id of root frame main.p247, CH64("main.f56bc77c3d4dbf7"), 2) = 81366766593810709.
+   The function ids below are city.CH64 of the names (computed by the harness with the library; the corpus case
+   node-id-collision-in-profile replays the same profile on the real code every run). *)
+Definition coll_p71 : N := 8243112280997805828%N.
+Definition coll_f1 : N := 12902996278266635461%N.
+Definition coll_p247 : N := 5810773922514262291%N.
+Definition coll_f2 : N := 10126166849050088630%N.
+Definition collision_profile : list sample :=
+  [ {| s_stack := [coll_f1; coll_p71]; s_values := [3] |};
+    {| s_stack := [coll_f2; coll_p247]; s_values := [5] |} ].
+
+Lemma collision_profile_breaks :
+  ~ parent_determined city16 (triples city16 collision_profile) /\
+  let t := post_process city16 1 collision_profile in
+  length t = 3%nat /\
+  exists n, In n t /\ snd (val_at 0 n) <> wrap64 (fst (val_at 0 n) + child_tot 0 t (n_id n)).
+Proof.
+  split.
+  - intros H.
+    assert (E : node_id city16 0 coll_p71 1 = node_id city16 0 coll_p247 1).
+    { apply (H _ coll_f1 2%N _ coll_f2 2%N).
+      - vm_compute. right. left. reflexivity.
+      - vm_compute. right. right. right. left. reflexivity.
+      - vm_compute. reflexivity. }
+    vm_compute in E. discriminate E.
+  - split; [vm_compute; reflexivity|].
+    exists {| n_parent := 0; n_fn := coll_p247; n_id := node_id city16 0 coll_p247 1; n_vals := [(0, 5)] |}.
+    split; [vm_compute; tauto|]. vm_compute. discriminate.
+Qed.
+
+(* two different functions under the same parent with one node id (second witness of profcollide): the stored tree
+   conserves, but both frames are one row, labelled with the function met first *)
+Definition coll_p0 : N := 9382333564074302159%N.
+Definition coll_g1 : N := 15941560428817510104%N.
+Definition coll_g2 : N := 7720991600543203911%N.
+Definition same_parent_collision_profile : list sample :=
+  [ {| s_stack := [coll_g1; coll_p0]; s_values := [3] |};
+    {| s_stack := [coll_g2; coll_p0]; s_values := [5] |} ].
+Lemma same_parent_collision_merges :
+  parent_determined city16 (triples city16 same_parent_collision_profile) /\
+  map (fun n => (n_fn n, n_vals n)) (post_process city16 1 same_parent_collision_profile) =
+  [ (coll_p0, [(0, 8)]); (coll_g1, [(8, 8)]) ].
+Proof.
+  split; [apply parent_determined_b_sound; vm_compute; reflexivity|vm_compute; reflexivity].
+Qed.
